@@ -3,6 +3,7 @@ from .. import alphabet as A
 from .. import canon as C
 from .. import core
 from .. import framework as FW
+from .. import invariants as I
 from .. import refmodel as R
 from .. import spec as S
 
@@ -66,7 +67,26 @@ def check_pair(spec, ha, hb, reload_b=False, reorder_b=False, reload_a=False):
     d = C.diff(b.toJson(), b0)
     if d:
         out.append(core.v_diff(PROP, drv, "b changed by a+=b", d, b.toJson(), args))
-    if out or reload_b or reorder_b or reload_a:
+    r = I.views(a)
+    if r:
+        out.append(FW.violation(PROP, drv, "%s after a+=b" % r[1], "handle-on-child-not-updated", args,
+                                {"path": r[0], "message": r[2]}))
+    if out or reload_a:
+        return out
+    if reload_b or reorder_b:
+        # b cannot be filled (or is the same content in another order): a must still be a's own tree, fillable as before
+        cont = [e for e in (list(hb) + list(ha)) if e[1] > 0][:3] or [(dict(A.DEFAULTS), 1.0)]
+        try:
+            for e in cont:
+                a.fill(A.fresh(e[0]), e[1])
+            d = C.diff(a.toJson(), R.ref_doc(spec, ha + hb + cont))
+            if d:
+                out.append(core.v_diff(PROP, drv, "a after a+=b and further fills differs from reference", d, a.toJson(), args))
+            d = C.diff(b.toJson(), b0)
+            if d:
+                out.append(core.v_diff(PROP, drv, "b changed when a was filled after a+=b", d, b.toJson(), args))
+        except Exception as e:
+            out.append(core.v_exc(PROP, drv, "filling a after a+=b raised", e, args))
         return out
     # continuations: keep filling b, then a; neither may leak into the other
     cont, seen = [], set()
@@ -105,6 +125,10 @@ def check_pair(spec, ha, hb, reload_b=False, reorder_b=False, reload_a=False):
         d = C.diff(a.toJson(), R.ref_doc(spec, ha + hb + cont + hb + cont))
         if d:
             out.append(core.v_diff(PROP, drv, "second a+=b differs from reference", d, a.toJson(), args))
+        r = I.views(a)
+        if r:
+            out.append(FW.violation(PROP, drv, "%s after fills and a second a+=b" % r[1], "handle-on-child-not-updated", args,
+                                    {"path": r[0], "message": r[2]}))
     except Exception as e:
         out.append(core.v_exc(PROP, drv, "continuation raised", e, args))
     return out
